@@ -1319,57 +1319,11 @@ Proof.
   exact Hbr.
 Qed.
 
-(* ---------- summary: which forms have a theorem ---------- *)
-Definition imm16_ok (i : Z) : Prop := 0 <= i < 2 ^ 16.
-Definition fields_ok (i : minstr) : Prop :=
-  match i with
-  | MAlu3 _ rd rs rt => reg_ok rd /\ reg_ok rs /\ reg_ok rt
-  | MShi _ rd rt sa => reg_ok rd /\ reg_ok rt /\ 0 <= sa < 32
-  | MShv _ rd rt rs => reg_ok rd /\ reg_ok rt /\ reg_ok rs
-  | MAluI _ rt rs imm => reg_ok rt /\ reg_ok rs /\ imm16_ok imm
-  | MLui rt imm => reg_ok rt /\ imm16_ok imm
-  | MMfhi r | MMflo r | MMthi r | MMtlo r => reg_ok r
-  | MTeq rs rt _ => reg_ok rs /\ reg_ok rt
-  | _ => True
-  end.
-
-Theorem proved_plain_correct bg i : proved_plain i = true -> fields_ok i -> plain_correct bg i.
-Proof.
-  intros Hp Hf. destruct i; try discriminate Hp; cbn [fields_ok] in Hf.
-  - destruct Hf as (Hd & Hs & Ht).
-    destruct o; first [apply alu3_simple_correct; [reflexivity|assumption..]
-                      |apply add_sub_correct; [solve [auto]|assumption..]
-                      |apply slt_correct; [solve [auto]|assumption..]
-                      |apply movc_correct; [solve [auto]|assumption..]].
-  - destruct Hf as (Hd & Ht & Hs). apply shi_correct; assumption.
-  - destruct Hf as (Hd & Ht & Hs). apply shv_correct; assumption.
-  - destruct Hf as (Ht & Hs & Hi). unfold imm16_ok in Hi.
-    destruct o; first [apply addi_correct; assumption
-                      |apply alui_simple_correct; [reflexivity|assumption..]
-                      |apply slti_correct; [solve [auto]|assumption..]].
-  - destruct Hf as (Ht & Hi). apply lui_correct; assumption.
-  - apply mfhi_correct; assumption.
-  - apply mflo_correct; assumption.
-  - apply mthi_correct; assumption.
-  - apply mtlo_correct; assumption.
-  - destruct Hf. apply teq_correct; assumption.
-  - apply break_correct.
-  - apply syscall_correct.
-  - apply sync_correct.
-  - apply pref_correct.
-Qed.
-
 Theorem control_correct bg b : is_control b = true -> branch_correct bg b.
 Proof.
   intros H. destruct b; try discriminate H.
   - apply j_correct. - apply jal_correct. - apply jr_correct. - apply jalr_correct.
   - apply br2_correct. - apply brz_correct. - apply brzal_correct.
-Qed.
-
-Lemma fields_okb_ok i : fields_okb i = true -> fields_ok i.
-Proof.
-  unfold fields_okb, fields_ok, regb, reg_ok, imm16_ok. destruct i; intros H; try exact I;
-    repeat (apply andb_true_iff in H; destruct H as [H ?]); repeat split; lia.
 Qed.
 
 Lemma branch_okb_ok a b : branch_okb a b = true -> branch_ok a b.
